@@ -361,7 +361,7 @@ class C20(Prop):
 
     def known_finding(self, case, res):
         if res.get("signature") == D7_SIGNATURE and res["status"] == "specfail":
-            return D7_TEXT
+            return core.listed_finding("C20", D7_SIGNATURE)
         return None
 
     def shrink_candidates(self, case):
